@@ -8,28 +8,32 @@ name: register_context_state
 define: U_CTX_STATE, U_PRESERVE, VERIF_REALLOC_ELEM_T=ctx_state_t
 src: conf.c
 enforce: spifconf_register_context_state
-backend: z3
+backend: z3,sat
+timeout: 150
 */
 /*@unit
 name: register_fstate
 define: U_FSTATE, U_PRESERVE, VERIF_REALLOC_ELEM_T=fstate_t
 src: conf.c
 enforce: spifconf_register_fstate
-backend: z3
+backend: z3,sat
+timeout: 150
 */
 /*@unit
 name: register_context
 define: U_CONTEXT, U_PRESERVE, VERIF_REALLOC_ELEM_T=ctx_t
 src: conf.c
 enforce: spifconf_register_context
-backend: z3
+backend: z3,sat
+timeout: 150
 */
 /*@unit
 name: register_builtin
 define: U_BUILTIN, U_PRESERVE, VERIF_REALLOC_ELEM_T=spifconf_func_t
 src: conf.c
 enforce: spifconf_register_builtin
-backend: z3
+backend: z3,sat
+timeout: 150
 */
 #include "vprelude.h"
 #include "src/conf.c"
